@@ -71,7 +71,7 @@ CHECKS = {
         technique="runtime monitoring: (a) ill-formed-by-construction argument vectors observed for exit status, stderr, stdout, child processes (recorder log) and sandbox snapshot; (b) totality fuzzing of the real find_main under catch_unwind with a per-case watchdog (privileges dropped to uid 65534), plus the binary for non-UTF-8 arguments; pattern-bearing vectors replayed under valgrind memcheck (crash = violation, reports advisory)",
         level="exploration",
         text="(a) 14 corruption kinds (binary operator first/last/before ')'/after '(', adjacent operators incl. '! -a', '!' before ')', unbalanced and empty parentheses, missing operand for 44 primaries, 28 unknown primaries, invalid operands for -type -xtype -size -links -inum -uid -gid the six time tests -perm -regextype -user -group -printf -newer* -newerXt, unbalanced -regex per syntax, 11 malformed -exec forms) applied to random valid expressions that contain printing, executing and deleting actions; (b) random vectors over 78 primaries, operators and parentheses with operands from valid values, near misses and ~150 arbitrary strings, on a tree with every file type, foreign owners, an unreadable directory, an ELOOP link, a 3GiB sparse file, a 60-character name and hostile names; (c) ~300 targeted shapes: every test/action evaluated on entries removed by an earlier -delete / -exec rm, every -printf directive on every type, patterns on which the regex engine gives up, non-UTF-8 arguments. Quick ~12k vectors.",
-        note="Creation/truncation of -fprint* files named before the error is not judged; an empty -newerXt operand is deliberately valid in this implementation (pinned by its test-suite); a watchdog firing is re-run alone before it counts as a hang; -printf widths between 10^4 and 10^19 are not generated.",
+        note="Creation/truncation of -fprint* files named before the error is not judged; an empty -newerXt operand is deliberately valid in this implementation (pinned by its test-suite); a watchdog firing is re-run alone before it counts as a hang; -printf widths between 10^6 and 10^19 are not generated (they legitimately produce megabytes to exabytes of padding).",
         ref="DESIGN.md section 4 C11"),
     "C12": dict(
         technique="runtime monitoring: differential oracle over executions of the real matcher objects (in-process), real symlinks (-lname) and the binary: glibc fnmatch(3) in two locales AND an independent POSIX matcher must agree for a pair to be judged; a sample of pattern rows replayed under valgrind memcheck (native Oniguruma engine; crash = violation, reports advisory)",
